@@ -93,9 +93,18 @@ class Ctx:
 # ----------------------------------------------------------------------------- T1
 
 def regen_consts(ctx):
+    """T1: regenerate Generated/Consts.v and Generated/Glue.v.  A constant or table the translator cannot read any more is
+    OMITTED from the generated file (recorded in Generated/T1_ERRORS.txt): only the Coq files that use it - hence only the
+    properties that depend on it - stop compiling; the others are not disturbed."""
     rc, out = run([sys.executable, os.path.join(VERIF, "tools", "extract_consts.py")], timeout=60)
+    ctx.t1_errors = []
+    try:
+        with open(os.path.join(COQ, "Generated", "T1_ERRORS.txt")) as f:
+            ctx.t1_errors = [l.strip() for l in f if l.strip()]
+    except OSError:
+        pass
     if rc != 0:
-        ctx.broken.append("T1 translator (tools/extract_consts.py) could not regenerate Generated/Consts.v: " + out.strip()[-400:])
+        ctx.broken.append("T1 translator (tools/extract_consts.py) could not regenerate the generated Coq files: " + out.strip()[-400:])
         return False
     return True
 
@@ -119,7 +128,9 @@ def coq_build(ctx, targets, timeout=1500):
     if rc != 0:
         errs = [l for l in out.splitlines() if "Error" in l or l.startswith("File ")]
         tail = "\n".join(out.splitlines()[-25:])
-        ctx.broken.append("Coq build of %s failed (a proof obligation no longer checks):\n%s" % (" ".join(targets), tail))
+        t1 = getattr(ctx, "t1_errors", [])
+        ctx.broken.append("Coq build of %s failed (a proof obligation no longer checks)%s:\n%s" % (
+            " ".join(targets), ("; the T1 translator could not read: " + " | ".join(t1)) if t1 else "", tail))
         ctx.notes.append("coq build errors: " + " | ".join(errs[:6]))
         return False
     return True
